@@ -70,7 +70,8 @@ RULE = (
     "abandoned, overlapped (by another stream or a unary call) or ended by a client-side error; hand-written corpus + callbacks "
     "raising (an Exception, swallowed or propagated, or a non-Exception: KeyboardInterrupt, SystemExit, asyncio.CancelledError, a "
     "user-defined BaseException) at EVERY read position of every script shape; the same proxy method repeated before / inside / "
-    "after streams; unary replies the client cannot validate / decode (its Protocol is one release behind the worker's: unknown "
+    "after streams; a non-Exception delivered INSIDE the return path, after each of its events (entry of _return_worker, poll, "
+    "_closed read, lock release, transport.close(), exit of _return_worker); unary replies the client cannot validate / decode (its Protocol is one release behind the worker's: unknown "
     "enum member, None for a non-optional, a record with another field, a str for an enum); self-ended servers that poll() cannot see yet (lazy exit) or can; + random "
     "configurations; per configuration every schedule with <= 2 (quick) / 3 (thorough) preemptions "
     "(capped), then PCT / random-walk schedules, some with line-level preemption of the pool methods. Non-trivial = at least "
@@ -162,7 +163,49 @@ def make_sched(PM: Any, cfg: dict[str, Any], holder: dict[str, Any]) -> DetSched
     return ds
 
 
-def pool_class(PM: Any, ds: DetSched) -> type:
+RETURN_POINTS = ("ret", "poll", "rd", "rel", "tclose", "exit")
+
+
+def make_injector(ds: DetSched, arm: dict[int, tuple[str, str]]) -> Any:
+    """Asynchronous interruption of the RETURN path (`RpcConnection.__exit__` -> `_PooledTransport.close` ->
+    `_return_worker`): a borrow armed with (point, kind) gets a non-Exception of that kind right after the first event `point`
+    of its return — entry of `_return_worker`, the poll, the `_closed` read under the lock, a lock release, a
+    `transport.close()`, the exit of `_return_worker` — i.e. at each boundary between two steps of the model."""
+
+    def inject(point: str) -> None:
+        a = arm.get(ds.tid())
+        if a is not None and a[0] == point:
+            del arm[ds.tid()]
+            ds.emit("intr")
+            raise interrupt_class(a[1])(f"injected after {point}")
+
+    return inject
+
+
+class _InjLock:
+    """The pool's lock, with an interruption point right after each release (`with self._lock:` left, next statement
+    not yet started)."""
+
+    def __init__(self, inner: Any, inject: Any) -> None:
+        self._inner = inner
+        self._inject = inject
+
+    def __enter__(self) -> Any:
+        return self._inner.__enter__()
+
+    def __exit__(self, *a: Any) -> None:
+        self._inner.__exit__(*a)
+        if a[0] is None:
+            self._inject("rel")
+
+    def acquire(self, *a: Any, **k: Any) -> Any:
+        return self._inner.acquire(*a, **k)
+
+    def release(self) -> None:
+        self._inner.release()
+
+
+def pool_class(PM: Any, ds: DetSched, inject: Any) -> type:
     class ObsPool(PM.WorkerPool):  # type: ignore[misc,name-defined]
         """The real pool; `_closed` (the one attribute shared without the lock) is observed and made a scheduling point."""
 
@@ -171,6 +214,7 @@ def pool_class(PM: Any, ds: DetSched) -> type:
             ds.point(what="read _closed")
             v = bool(self.__dict__["_c32_closed"])
             ds.emit("rd", v)
+            inject("rd")
             return v
 
         @_closed.setter
@@ -184,18 +228,29 @@ def pool_class(PM: Any, ds: DetSched) -> type:
         def _return_worker(self, transport: Any, stream_opened: bool) -> None:
             sy = transport.synced()  # (also notices — and reports — a server that has ended by itself)
             ds.emit("ret", transport.wid, bool(stream_opened), sy)
-            return super()._return_worker(transport, stream_opened)
+            inject("ret")
+            super()._return_worker(transport, stream_opened)
+            inject("exit")
 
     return ObsPool
 
 
 def make_setup(PM: Any, cfg: dict[str, Any], holder: dict[str, Any]) -> Any:
     def setup(ds: DetSched) -> Any:
-        world = poolsim.World(emit=ds.emit, keys=cfg["keys"], fail_spawns=set(cfg.get("fail_spawns", [])),
+        arm: dict[int, tuple[str, str]] = {}
+        inject = make_injector(ds, arm)
+
+        def emit(kind: str, *a: Any) -> None:
+            ds.emit(kind, *a)
+            if kind in ("poll", "tclose"):
+                inject(kind)
+
+        world = poolsim.World(emit=emit, keys=cfg["keys"], fail_spawns=set(cfg.get("fail_spawns", [])),
                               lazy_exit=bool(cfg.get("lazy_exit", True)))
         holder["world"] = world
-        pool = pool_class(PM, ds)(max_idle=cfg["maxIdle"], idle_timeout=cfg["timeout"] * Q)
-        env = {"world": world, "pool": pool, "foreign": [], "handover": [], "samples": []}
+        pool = pool_class(PM, ds, inject)(max_idle=cfg["maxIdle"], idle_timeout=cfg["timeout"] * Q)
+        pool._lock = _InjLock(pool._lock, inject)
+        env = {"world": world, "pool": pool, "foreign": [], "handover": [], "samples": [], "arm": arm, "dups": []}
         for ti, jobs in enumerate(cfg["threads"]):
             ds.spawn(thread_main, ds, env, cfg, jobs, ti, name=f"J{ti}")
         return env
@@ -235,6 +290,12 @@ def idle_total(pool: Any) -> int:
     return sum(len(d) for d in pool._idle.values())
 
 
+def idle_twice(pool: Any) -> list[int]:
+    """Workers the idle dict holds more than once."""
+    wids = [e.transport.wid for d in pool._idle.values() for e in d]
+    return sorted({w for w in wids if wids.count(w) > 1})
+
+
 def thread_main(ds: DetSched, env: dict[str, Any], cfg: dict[str, Any], jobs: list[list[Any]], ti: int) -> None:
     pool = env["pool"]
     for ji, job in enumerate(jobs):
@@ -261,6 +322,7 @@ def thread_main(ds: DetSched, env: dict[str, Any], cfg: dict[str, Any], jobs: li
         else:
             raise ValueError(k)
         env["samples"].append(idle_total(pool))
+        env["dups"] += idle_twice(pool)
 
 
 UNARY = ("echo", "noisy", "bad", "phase", "maybe", "rec", "label")
@@ -393,6 +455,9 @@ def do_borrow(ds: DetSched, env: dict[str, Any], cfg: dict[str, Any], ti: int, j
                     raise err
                 if err is not None and spec.get("propagate") and not isinstance(err, StopIteration):
                     raise err
+            if spec.get("intr_ret"):
+                # from here on the borrow is in its return path: the interruption is delivered there
+                env["arm"][ds.tid()] = (spec["intr_ret"]["after"], spec["intr_ret"].get("kind", "ki"))
             if spec.get("exit") == "raise":
                 raise UserAbort
     except BaseException as e:  # noqa: BLE001
@@ -407,6 +472,7 @@ def do_borrow(ds: DetSched, env: dict[str, Any], cfg: dict[str, Any], ti: int, j
                 return
             raise
         # otherwise: the borrower left its block by an exception (its own, on_log's, or a propagated client error)
+    env["arm"].pop(ds.tid(), None)  # (an interruption point that this return path did not pass)
     ds.emit("done")
 
 
@@ -485,6 +551,8 @@ def analyse(cfg: dict[str, Any], run: Any) -> dict[str, Any]:
             events.append(["got", tid, w])
         elif k == "done":
             events.append(["done", tid])
+        elif k == "intr":
+            events.append(["intr", tid])
         elif k == "obsVal":
             if ev[2] > cfg["maxIdle"]:
                 over_cap.append(f"idle_count returned {ev[2]} > max_idle {cfg['maxIdle']}")
@@ -534,6 +602,7 @@ def snapshot(cfg: dict[str, Any], run: Any) -> dict[str, Any]:
     env = run.value
     pool = env["pool"]
     return {"handover": env["handover"], "foreign": env["foreign"], "worst": max(env["samples"] + [idle_total(pool)], default=0),
+            "dups": sorted(set(env["dups"] + idle_twice(pool))),
             "real": {"idle": real_idle(cfg, pool), "active": pool._active, "closed": bool(pool.__dict__["_c32_closed"]),
                      "busy": [], "locked": False}}
 
@@ -552,7 +621,7 @@ def judge(ctx: Any, cfg: dict[str, Any], run: Any, an: dict[str, Any], env: dict
                           ("abandoned", any(e[0] == "ret" and e[3] for e in an["events"])),
                           ("end-dirty", "endDirty" in uses), ("end-ok", "endOk" in uses), ("open-fail", "openFail" in uses),
                           ("leaked", any(e[0] == "use" and e[4] for e in an["events"])),
-                          ("interrupt", "interrupt" in uses)):
+                          ("interrupt", "interrupt" in uses), ("intr-in-return", "intr" in evk)):
         if present:
             tags.append(f"conc:has-{name}")
     ctx.case(case, nontrivial=an["served"] >= 2, tags=tuple(tags))
@@ -571,6 +640,8 @@ def judge(ctx: Any, cfg: dict[str, Any], run: Any, an: dict[str, Any], env: dict
     for h in env["handover"]:
         if h["in_idle"]:
             ctx.fail(case, "C32:shared-worker:still-idle", f"worker {h['wid']} handed to thread {h['tid']} is still in the idle dict")
+    for w in env["dups"]:
+        ctx.fail(case, "C32:shared-worker:idle-twice", f"the idle dict holds worker {w} more than once")
     cap = cfg["maxIdle"]
     for msg in an["over_cap"]:
         ctx.fail(case, f"C32:idle-over-cap:max_idle={cap}", msg)
@@ -662,6 +733,15 @@ CORPUS: list[dict[str, Any]] = [
     _c(1, [[B(0, MASK), B()], [B()]]),
     _c(1, [[B(0, PROD_CLOSE, cb={"from": 2}), B(), B()], [B()]]),
     _c(1, [[B(0, PROD_CANCEL, cb={"from": 3}, propagate=True), B(), B()]]),
+    # a non-Exception delivered inside the RETURN path (RpcConnection.__exit__ -> _PooledTransport.close -> _return_worker),
+    # at each boundary between two of its steps; then the worker (if it was put back) is borrowed again, twice at once
+    *[_c(2, [[B(0, intr_ret={"after": p, "kind": k}), B(), ["count"]], [B(), B()]], src=f"intr-ret:{p}")
+      for p, k in (("exit", "ki"), ("rel", "base"), ("rd", "cancel"), ("poll", "exit"), ("ret", "ki"))],
+    _c(1, [[B(0, PROD_ABANDON, intr_ret={"after": "tclose", "kind": "ki"}), B()], [B(), B()]], src="intr-ret:tclose"),
+    _c(1, [[B(0, intr_ret={"after": "tclose", "kind": "base"}), B()], [B(0, intr_ret={"after": "rel", "kind": "ki"}), B()]],
+       src="intr-ret:evict"),
+    _c(2, [[B(0, intr_ret={"after": "rd", "kind": "ki"}), B()], [["close"]], [B(0, intr_ret={"after": "tclose", "kind": "ki"})]],
+       src="intr-ret:closing"),
     # client and worker out of step on the protocol: the reply arrives intact, the CLIENT cannot validate / decode the value
     _c(1, [[B(0, [["phase", 1]]), B(), B()], [B()]]),
     _c(1, [[B(0, [["maybe", 1]], propagate=True), B(0, [["rec", 0]]), B()], [B(0, [["label", 1], ["phase", 0]]), B()]]),
@@ -776,6 +856,8 @@ def gen_cfg(rng: Any) -> dict[str, Any]:
                         spec["cb"]["exc"] = rng.choice(INTERRUPTS)
                 if rng.random() < 0.1:
                     spec["exit"] = "raise"
+                if rng.random() < 0.15:
+                    spec["intr_ret"] = {"after": rng.choice(RETURN_POINTS), "kind": rng.choice(INTERRUPTS)}
                 jobs.append(["borrow", rng.randrange(len(keys)), spec])
             elif r < 0.78:
                 jobs.append(["adv", rng.choice([1, 2, timeout])])
